@@ -34,6 +34,9 @@ type Op struct {
 type History struct {
 	ID  int  `json:"id"`
 	Ops []Op `json:"ops"`
+	// ConcRead describes the first disagreement between concurrent readers
+	// and the sequential dump at the end of the history ("" = none).
+	ConcRead string `json:"conc_read,omitempty"`
 }
 
 type locatorer interface {
